@@ -114,7 +114,8 @@ PROBES.append((re.compile(r"^sto::MemoryStore::.*finds-what-matches"), "shipped-
 PROBES.append((re.compile(r"^sto::MemoryStore::"), "shipped-store", ["memory-rp", "memory-idless"]))
 # sender: payload lengths around every packet boundary (and the maximum), every byte non-zero so that stale bytes show
 PROBES.insert(0, (re.compile(r"^hid::Message::(send|to_packets)::"), "hid-roundtrip",
-                  ["01020304:10:" + "".join("%02x" % (1 + (k * 7) % 250) for k in range(n)) for n in (0, 1, 56, 57, 58, 59, 114, 115, 116, 117, 173, 174, 175, 233, 7608, 7609)]))
+                  ["01020304:10:" + "".join("%02x" % (1 + (k * 7) % 250) for k in range(n)) for n in (0, 1, 56, 57, 58, 59, 114, 115, 116, 117, 173, 174, 175, 233, 7608, 7609)]
+                  + ["01020304:10:" + "".join("%02x" % (1 + (k * 7) % 250) for k in range(n)) + ":w%d" % w for (n, w) in ((10, 64), (10, 40), (130, 63), (130, 1))]))
 
 
 CEREMONY = {"C17": ["c17"], "C09": ["c09"], "C04": ["c04"], "C05": ["c05"], "C07": ["c07"], "C08": ["c08"], "C11": ["c11"], "C02": ["c07", "c11"], "C03": ["c05"]}
